@@ -122,14 +122,14 @@ Proof. exact @cp_skeleton. Qed.
 Print Assumptions C11_skeleton.
 
 (* "initial factors are passed through the proximal operator", exactly: with a computed initialisation (svd / random) the factor
-   returned for a mode that no sweep updates (a fixed mode other than the last, or any mode with outer budget 0) is prox_of c applied
+   returned for a mode that no sweep updates (a fixed mode other than the last, or any mode with outer or inner budget 0) is prox_of c applied
    to the RAW initial factor of that very mode, c being the validated entry of the mode (so, by C11_validate_order, the operator of
    exactly the request made for it) *)
 Theorem C11_untouched_mode_is_projected_initial_factor : forall (P M : Type) (truthy : P -> bool) (dM : M)
   (op : kind -> P -> M -> M) (msub madd : M -> M -> M) (n : nat) (sp : list (kind * @zspec P)) (E : env (M := M))
   (raw : list M) (fixed : list nat) (n_outer n_inner : nat) (zero : M) (fs : list M) (m : nat),
   constrained_cp dM op (zvalidate truthy n sp) msub madd E n (IComputed raw) fixed n_outer n_inner zero = Ok fs ->
-  m < length raw -> ~ In m (modes_list n fixed) \/ n_outer = 0 ->
+  m < length raw -> ~ In m (modes_list n fixed) \/ n_outer = 0 \/ n_inner = 0 ->
   exists c, zvalidate truthy n sp m = Ok c /\ nth m fs dM = prox_of op c (nth m raw dM).
 Proof. exact @zcp_computed_not_updated. Qed.
 Print Assumptions C11_untouched_mode_is_projected_initial_factor.
